@@ -108,12 +108,18 @@ class Buf:
         self.shared[:len(c)] = c
         return memoryview(self.shared)[:len(c)]
 
+SRC_FAULTS = ['OSError', 'ValueError', 'RuntimeError', 'KeyError', 'TypeError', 'IndexError', 'AttributeError', 'OverflowError', 'error', 'Boom']
+def exn_code(cls):
+    return EXN_NAMES.index(cls if cls in EXN_NAMES else 'OtherError') + 1
+
 class FSrc(io.BytesIO, Buf):
-    def __init__(self, data, buf='bytes'):
-        super().__init__(data); self.log = []; self.pos = 0; self.pulls = 0; self.buf = buf
+    def __init__(self, data, buf='bytes', sfaults=()):
+        super().__init__(data); self.log = []; self.pos = 0; self.pulls = 0; self.buf = buf; self.sfaults = list(sfaults)
     force_empty = False   # the next read returns b'' although data is left (a transient empty read)
     def read(self, size=-1):
-        self.pulls += 1
+        i = self.pulls; self.pulls += 1
+        if i < len(self.sfaults) and self.sfaults[i]:
+            raise make_exc(self.sfaults[i], '<source>')         # a transient failure of the source: nothing is consumed
         try:
             c = super().read(0 if self.force_empty else size)
         except Exception as e:
@@ -139,6 +145,27 @@ class GSrc(LSrc):
     """generator-like: close() exhausts it"""
     def close(self):
         self.it = iter(())
+
+class RSrc(Buf):
+    """a scripted iterator: 0 = the next chunk, 1000 = StopIteration now (the source resumes afterwards), k = exception
+    class EXN_NAMES[k-1] raised once; after the script: StopIteration.  No close()."""
+    def __init__(self, chunks, script, buf='bytes'):
+        self.log = []; self.pulls = 0; self.buf = buf; self.items = []
+        ch = list(chunks)
+        for code in script:
+            if code == 0:
+                if ch: self.items.append(('c', ch.pop(0)))
+            elif code == 1000: self.items.append(('s', None))
+            else: self.items.append(('e', EXN_NAMES[code - 1]))
+    def __iter__(self): return self
+    def __next__(self):
+        self.pulls += 1
+        if not self.items: raise make_exc('StopIteration', '<source>')
+        k, v = self.items.pop(0)
+        if k == 's': raise make_exc('StopIteration', '<source>')
+        if k == 'e': raise make_exc('Boom' if v == 'OtherError' else v, '<source>')
+        self.log.append(v)
+        return self.conv(v)
 
 class OSet(set):
     """a set with a chosen iteration order.  CPython iterates the wrapper's set of inspector objects in an
@@ -256,10 +283,10 @@ def run_session(c):
     kind = c['kind']
     faults = {(f[0], f[1]): (f[2], f[3]) for f in c.get('faults', [])}
     buf = c.get('buf', 'bytes')
-    if kind == 'f': src = FSrc(data, buf)
+    if kind == 'f': src = FSrc(data, buf, c.get('sfaults', ()))
     else:
         chunks = split_lens(data, c['lens'])
-        src = GSrc(chunks, buf) if kind == 'g' else LSrc(chunks, buf)
+        src = RSrc(chunks, c['script'], buf) if kind == 'r' else (GSrc(chunks, buf) if kind == 'g' else LSrc(chunks, buf))
     expected = c.get('expected')
     w = fi.InspectWrapper(src, expected_format=expected, allowed_formats=c.get('allowed'))
     reorder(fi, w, c.get('oseed', 0))
@@ -278,20 +305,35 @@ def run_session(c):
     delivered = bytearray(); clean = True
     received = []; snaps = []        # the chunk OBJECTS the reader got, and what they contained when it got them
     first_exc = None
-    for k, op in enumerate(c['ops']):
+    last = {'exc': None}
+    def calls():
+        for k, op in enumerate(c['ops']):
+            if op == 2:                      # for chunk in wrapper: ...   (until the first exception)
+                it = iter(w)
+                for _ in range(100000):
+                    yield k, 0, (lambda: next(it))
+                    if last['exc'] is not None: break
+            else:
+                yield k, op, None
+    for k, op, fn in calls():
         pulls0, nlog0 = src.pulls, len(src.log)
         exc = None; chunk = None
         if kind == 'f': src.force_empty = k in transient
         try:
-            if op == 1: w.close(); closed = True
+            if fn is not None: chunk = fn()
+            elif op == 1: w.close(); closed = True
             elif op == 0: chunk = next(w)
             else: chunk = w.read(-1 if op == 9 else op - 10)
         except Exception as e:
             exc = e
+        last['exc'] = exc
+        if fn is not None and type(exc).__name__ == 'StopIteration' and getattr(exc, '_c06_src', None) is None:
+            viol.append('op %d: the iteration over the wrapper ended although the source did not signal StopIteration' % k)
         if op == 1: res = 'N' if exc is None else 'E' + canon(exc)
         elif exc is not None: res = 'E' + canon(exc)
         else: res = 'B%d.%d' % (len(chunk), ck(chunk))
         if kind == 'f': pos = src.pos
+        elif kind == 'r': pos = len(src.items)
         else: pos = 0 if (kind == 'g' and closed) else len(chunks) - len(src.log)
         out.append('%s@%d|%s' % (res, pos, state_str(fi, w, order, recs)))
         # ---------------- the property, on this call
@@ -308,7 +350,8 @@ def run_session(c):
             # a chunk handed to the reader stays what it was (unless the SOURCE re-uses its buffer: kinds reuse / mv)
             if buf == 'ba' and any(bytes(received[j]) != snaps[j] for j in range(len(received))):
                 viol.append('op %d: a chunk already delivered to the reader was modified afterwards' % k)
-        if exc is not None: clean = False
+        if exc is not None:
+            if getattr(exc, '_c06_src', None) != '<source>': clean = False      # the source's own exceptions lose nothing
         elif clean:
             delivered += snaps[-1]
             if bytes(delivered) != whole[:len(delivered)]:
@@ -508,7 +551,8 @@ def encode(c):
     al = c.get('allowed')
     return ['sess', c['kind'], 'N' if exp is None else 'S' + exp, 'N' if al is None else 'L' + ''.join(',' + n for n in al),
             ''.join(',' + n for n in order), data, list(c.get('lens') or []),
-            [10 if (k in set(c.get('transient', [])) and op >= 9) else op for k, op in enumerate(c['ops'])]] + [list(s) for s in scripts]
+            [10 if (k in set(c.get('transient', [])) and op >= 9) else op for k, op in enumerate(c['ops'])],
+            ([exn_code(x) if x else 0 for x in c.get('sfaults', [])] if c['kind'] == 'f' else list(c.get('script', [])))] + [list(s) for s in scripts]
 
 def project(c, io_):
     return io_.split(' ## ')[0]
@@ -615,6 +659,27 @@ def gen_cases(rng, tier):
                     c = session(rng, spec, rng.choice([100, 128, 200, 256]), kind, e, None, [])
                     c['buf'] = buf
                     yield c
+    # SOURCE faults: the source's own read()/next() raises once (any position, the caller retries), an iterator that signals
+    # StopIteration and later has more data, iterating the wrapper again after StopIteration
+    for rep in range(1 if tier == 'quick' else 8):
+        for e in exps:
+            t = rng.choice(SMALL_T if e is None else [e if e in SMALL_T else 'zeros', 'zeros', 'rand', 'qcow2+gpt'])
+            cs = rng.choice([128, 200, 256, 300]); nch = rng.choice([4, 5, 6])
+            spec = {'t': t, 'n': cs * nch - rng.choice([0, 1, 17]), 'seed': rng.randrange(50)}
+            base = {'op': 'sess', 'data': spec, 'expected': e, 'allowed': None, 'faults': [], 'lens': []}
+            for p in range(nch + 1):
+                cls = rng.choice(SRC_FAULTS)
+                yield dict(base, kind='f', oseed=rng.randrange(1000), buf='bytes', sfaults=[None] * p + [cls], ops=[10 + cs] * (nch + 2) + [1])
+                script = [0] * p + [exn_code(cls)] + [0] * (nch - p)
+                yield dict(base, kind='r', oseed=rng.randrange(1000), buf='bytes', lens=[cs] * nch, script=script,
+                           ops=rng.choice([[0] * (nch + 3), [2, 2], [2, 2, 1], [0, 2, 2]]))
+            a = rng.randrange(1, nch)
+            for ops in ([2, 2], [2, 2, 2], [0] * (nch + 3), [2, 0, 0, 2]):          # resumable: StopIteration after chunk a, then the rest
+                yield dict(base, kind='r', oseed=rng.randrange(1000), buf=rng.choice(['bytes', 'ba']), lens=[cs] * nch,
+                           script=[0] * a + [1000] + [0] * (nch - a), ops=ops)
+            yield dict(base, kind='r', oseed=rng.randrange(1000), buf='bytes', lens=[cs] * nch, script=[0] * nch, ops=[2, 2, 1, 2])
+            for kind in ('i', 'g'):                                                   # plain iterators, iterated twice
+                yield dict(base, kind=kind, oseed=rng.randrange(1000), buf='bytes', lens=[cs] * nch, ops=[2, 2])
     # faults inside the region_complete / post_process hooks of an inspector (by call index / region name); contents with
     # regions that complete late or only at EOF (VMDK footer flag, VHDX region tables) among them
     HT = ['vmdkfooter', 'vmdk', 'qcow2', 'luks', 'gpt', 'zeros', 'rand', 'vmdkfooter+gpt']
